@@ -233,7 +233,7 @@ func (t *dtr) errVarTable() map[string]string {
 	if t.mode == "enum" {
 		return map[string]string{"ErrInvalidEnumIdx": "EInvalidEnumIdx"}
 	}
-	if t.mode == "ble" {
+	if t.mode == "ble" || t.mode == "dbg" {
 		return map[string]string{}
 	}
 	return errVars
@@ -419,6 +419,10 @@ func (t *dtr) ex(e ast.Expr) (pre []bnd, term string) {
 			if s := t.apiSelector(x); s != "" {
 				return nil, s
 			}
+		}
+		if t.mode == "dbg" && t.isRecv(x.X) && x.Sel.Name == "logDebugIndent" {
+			v := t.tmp()
+			return []bnd{{v, "get_indent", false}}, v
 		}
 		if t.mode == "reg" && t.isRecv(x.X) {
 			if g, ok := regFieldGet[x.Sel.Name]; ok {
@@ -842,6 +846,11 @@ func (t *dtr) call(x *ast.CallExpr, tv types.TypeAndValue) ([]bnd, string) {
 		}
 		return p, fmt.Sprintf("(%s %s)", w, a)
 	}
+	if t.mode == "dbg" {
+		if p, s, ok := t.dbgCall(x, tv); ok {
+			return p, s
+		}
+	}
 	fn := types.ExprString(x.Fun)
 	switch fn {
 	case "len":
@@ -974,6 +983,11 @@ func (t *dtr) call(x *ast.CallExpr, tv types.TypeAndValue) ([]bnd, string) {
 	}
 	if t.mode == "ble" {
 		if p, s, ok := t.bleCall(x, tv); ok {
+			return p, s
+		}
+	}
+	if t.mode == "dbg" {
+		if p, s, ok := t.dbgCall(x, tv); ok {
 			return p, s
 		}
 	}
@@ -1403,6 +1417,15 @@ func (t *dtr) assign(x *ast.AssignStmt) []bnd {
 	if x.Tok != token.ASSIGN && x.Tok != token.DEFINE {
 		if len(x.Lhs) != 1 || len(x.Rhs) != 1 {
 			t.bad(x, "assignment form")
+		}
+		if sel, isSel := x.Lhs[0].(*ast.SelectorExpr); isSel && t.mode == "dbg" && t.isRecv(sel.X) && sel.Sel.Name == "logDebugIndent" {
+			opf := map[token.Token]string{token.ADD_ASSIGN: "Z.add", token.SUB_ASSIGN: "Z.sub"}[x.Tok]
+			if opf == "" {
+				t.bad(x, "op-assignment %s on the indentation", x.Tok)
+			}
+			p, b := t.ex(x.Rhs[0])
+			cur := t.tmp()
+			return append(p, bnd{cur, "get_indent", false}, bnd{"_", fmt.Sprintf("set_indent (%s %s %s)", opf, cur, b), false})
 		}
 		id, ok := x.Lhs[0].(*ast.Ident)
 		if !ok {
@@ -1887,6 +1910,10 @@ func (t *dtr) function(fd *ast.FuncDecl) string {
 		}
 		for _, n := range p.Names {
 			obj := t.info.Defs[n]
+			if t.mode == "dbg" && !variadic {
+				params = append(params, fmt.Sprintf("(%s : (list byte))", t.declare(obj)))
+				continue
+			}
 			if t.mode == "reg" || t.mode == "ble" {
 				ct := t.coqType(obj.Type())
 				if ct == "" {
@@ -2052,6 +2079,12 @@ func translateBleHandler(repo, outPath string) {
 		[]string{"PKCS7Padding", "bluezAddrBytes", "getDeviceConfig", "handleNewManufacturerData"},
 		"From GV Require Import Vedirect.DrvSem Ble.BleSem.\nImport ListNotations.\nLocal Open Scope Z_scope.\n\n",
 		"GoLite-D -> Gallina translation of the advertisement handler (tie T-gen).")
+}
+
+func translateDbg(repo, outPath string) {
+	translatePkg(repo, outPath, "dbg", "vedirect", []string{"debugPrintf"},
+		"From GV Require Import Vedirect.DrvSem Vedirect.DbgSem.\nImport ListNotations.\nLocal Open Scope Z_scope.\n\n",
+		"GoLite-D -> Gallina translation of vd.debugPrintf (tie T-gen).")
 }
 
 func translateEnum(repo, outPath string) {
